@@ -1338,6 +1338,58 @@ func (c *FuncCtx) callContract(st *State, con *Contract, fi *FuncInfo, recv Valu
 		}
 		c.setRefVal(st, target, val)
 	}
+	// A callee may ASSIGN fields of a struct it reaches through a pointer (receiver or parameter).  Struct fields
+	// are symbolic values, not heap cells: the fields the callee's postconditions mention under old(...) - the
+	// ones whose change the contract describes - get a fresh value after the call (a field override of this
+	// path); old(x.f) reads the state before.  Without this, x.f and old(x.f) were one term, and a postcondition
+	// such as x.f + d == old(x.f), d > 0, made everything after the call vacuous.
+	fieldsChanged := false
+	for _, en := range con.Ensures {
+		ast.Inspect(en.Expr, func(m ast.Node) bool {
+			call, ok := m.(*ast.CallExpr)
+			if !ok {
+				return true
+			}
+			if id, ok := call.Fun.(*ast.Ident); !ok || id.Name != "old" || len(call.Args) != 1 {
+				return true
+			}
+			ast.Inspect(call.Args[0], func(k ast.Node) bool {
+				sel, ok := k.(*ast.SelectorExpr)
+				if !ok {
+					return true
+				}
+				id, ok := sel.X.(*ast.Ident)
+				if !ok {
+					return true
+				}
+				sv, ok := bind[id.Name].(*StructV)
+				if !ok || sv.Key != nil {
+					return true
+				}
+				stt, ok := sv.T.Underlying().(*types.Struct)
+				if !ok {
+					return true
+				}
+				for i := 0; i < stt.NumFields(); i++ {
+					f := stt.Field(i)
+					if f.Name() != sel.Sel.Name {
+						continue
+					}
+					if _, isBasic := f.Type().Underlying().(*types.Basic); !isBasic {
+						continue
+					}
+					if st.fieldOv == nil {
+						st.fieldOv = map[string]Value{}
+					}
+					key := fieldOvKey(sv, f.Name())
+					st.fieldOv[key] = c.symValue(st, c.freshName(sv.Prefix+"."+f.Name()), f.Type())
+					fieldsChanged = true
+				}
+				return true
+			})
+			return false
+		})
+	}
 	evws := c.views(con, fi.Pkg.PkgPath, func(facts *[]*Term) *SpecEnv {
 		env := mkEnv(st, pre, facts, b2)
 		env.old = func(name string) (Value, bool) { v, ok := bind[name]; return v, ok }
@@ -1351,6 +1403,19 @@ func (c *FuncCtx) callContract(st *State, con *Contract, fi *FuncInfo, recv Valu
 				st.assume(f)
 			}
 			st.assume(g)
+		}
+	}
+	// the callee's postconditions must not contradict the state they are assumed in (everything after the call
+	// would hold vacuously): reported like a contradictory precondition when the solver REFUTES the path
+	if fieldsChanged {
+		// checked where the pattern occurs (a callee that changes fields of its receiver): was the path feasible
+		// before the call and is it refuted after it?
+		before := &Obligation{Name: c.obName("feasibility", "call:"+short), Func: c.name, Kind: "feasibility", Goal: TFalse, Native: true}
+		before.Assume = append([]*Term(nil), pre.path...)
+		before.Discharge(3)
+		if before.Status != "unsat" {
+			o := c.oblige(st, "vacuity", "call:"+short, TFalse, at)
+			o.Kind = "vacuity"
 		}
 	}
 	return res
